@@ -306,6 +306,17 @@ class Obj(V):
         return f"Obj<{self.cls}>({self.fields})"
 
 
+class Ref(V):
+    """A reference to a mutable object of a plain (non-pydantic) class; its attributes live in the path's heap."""
+    __slots__ = ("ident", "cls")
+
+    def __init__(self, ident, cls):
+        self.ident, self.cls = ident, cls
+
+    def __repr__(self):
+        return f"Ref<{self.cls}#{self.ident}>"
+
+
 class Opq(V):
     """An opaque value of an uninterpreted sort (shapely geometry, UUID, ...)."""
     __slots__ = ("kind", "t", "meta")
@@ -384,7 +395,9 @@ def truth(v: V):
         return z3.BoolVal(bool(v.items)) if v.concrete else v.n > 0
     if isinstance(v, Dct):
         return z3.BoolVal(bool(v.pairs))
-    if isinstance(v, (Obj, Opq, Fn, ModV)):
+    if isinstance(v, DctL):
+        return v.keys.length() > 0
+    if isinstance(v, (Obj, Opq, Fn, ModV, Ref)):
         return z3.BoolVal(True)
     raise Unsupported(f"truthiness of {type(v).__name__}")
 
@@ -513,6 +526,8 @@ def eq(a: V, b: V):
         if a.kind != b.kind:
             return z3.BoolVal(False)
         return a.t == b.t
+    if isinstance(a, Ref) and isinstance(b, Ref):
+        return z3.BoolVal(a.ident == b.ident)
     if isinstance(a, (SetL, SetV)) and isinstance(b, (SetL, SetV)):
         la = a.lst if isinstance(a, SetL) else Lst(items=a.items)
         lb = b.lst if isinstance(b, SetL) else Lst(items=b.items)
